@@ -177,6 +177,23 @@ def reqHasNegative (r : OReq) : Bool :=
   | some m => m.entries.any fun (_, _, v) => v < 0
   | none => false
 
+/-- the same coordinate listed twice in the local trust, or the same index twice in a trust vector: accepted by
+    the server, both entries stored (documented neither way). -/
+def reqHasDupCoords (r : OReq) : Bool :=
+  let rec dupM : List (Int × Int × Float) → Bool
+    | [] => false
+    | (i, j, _) :: rest => rest.any (fun (i', j', _) => i == i' && j == j') || dupM rest
+  let rec dupV : List (Int × Float) → Bool
+    | [] => false
+    | (i, _) :: rest => rest.any (fun (i', _) => i == i') || dupV rest
+  let m := match imSize r.req.localTrust r.pre with
+    | some m => dupM m.entries
+    | none => false
+  let v := fun (o : Option (VectorRef Float)) => match o with
+    | some (.inline v) => dupV v.entries
+    | _ => false
+  m || v r.req.preTrust || v r.req.initialTrust
+
 /-- does the request violate a documented constraint (⇒ must be refused with 400)? -/
 def reqInvalid (r : OReq) : Bool :=
   let badM := match r.req.localTrust with
@@ -282,7 +299,20 @@ def judgeOapi (prop : String) : P Verdict := do
             let vals := sc.entries.map fun e => f2q! e.val
             p := finite && sc.wf && qabs (qsum vals - 1) ≤ (1 / 1000000000000 : Rat)
             if !p then why := "scores of a non-negative request do not sum to 1"
-        else if prop == "C03" || prop == "C14" then
+        else if prop == "C15" then
+          -- a well-formed success: finite, well-formed scores which - when the request holds no negative value -
+          -- are what a compute promises at all, a distribution (adversarial numbers whose sums overflow must end in
+          -- a well-formed error or in this, not in a 200 with leftovers)
+          if !reqHasNegative r then
+            let vals := sc.entries.map fun e => (f2q e.val).getD 0
+            p := finite && sc.wf && qabs (qsum vals - 1) ≤ (1 / 1000000000 : Rat)
+            if !p then why := "200 with scores that are not a finite distribution for a request without negative values"
+          else
+            p := finite && sc.wf
+            if !p then why := "200 with non-finite or malformed scores"
+          if !p && reqHasDupCoords r then
+            why := why ++ " [finding:C15/oapi/duplicate-coordinates-malformed-success]"
+        else if prop == "C03" || prop == "C14" || prop == "C08" then
           let unlimited := r.req.maxIterations.isNone || r.req.maxIterations == some 0
           match docScores r with
           | none => p := true
